@@ -112,6 +112,10 @@ class ShardResult:
             self.samples.append(obj)
 
     def violation(self, mechanism, summary, replay):
+        if isinstance(replay, dict):
+            # the interpreter conditions of this shard belong to the witness: a replay re-creates them
+            replay = dict(replay, _env={"debug_logging": bool(os.environ.get("VF_DEBUG_LOGGING")), "optimize": int(sys.flags.optimize),
+                                        "lib_warnings_as_errors": bool(os.environ.get("VF_LIB_WARNINGS_AS_ERRORS"))})
         self.violations.append({"mechanism": mechanism, "summary": summary, "replay": replay})
 
     def as_dict(self):
@@ -194,6 +198,14 @@ def run_shards(prop, specs, shard_timeout, max_parallel=None, env_extra=None):
                 td = os.path.join(work, f"tmp{i}")
                 os.makedirs(td, exist_ok=True)
                 env_i = dict(env, VF_SCRATCH_BASE=td, TMPDIR=td)
+                if i % 4 == 2:
+                    # every fourth shard turns warnings that are attributed to the library's own modules into errors (an application
+                    # run with -W error, a test suite with filterwarnings=error): the unchanged library never warns
+                    env_i["VF_LIB_WARNINGS_AS_ERRORS"] = "1"
+                if i % 4 == 1:
+                    # every fourth shard runs with logging switched on at DEBUG level for every logger (an application that
+                    # debugs): whatever the library logs is formatted, and must not change what the library does
+                    env_i["VF_DEBUG_LOGGING"] = "1"
                 # every fourth shard runs under `python -O` (assert statements are compiled away): what the library does must
                 # not depend on work done inside an assert
                 pyflags = ["-O"] if i % 4 == 3 else []
@@ -367,6 +379,12 @@ def finish(mod, tier, seed, shard_results, t0, extra_coverage=None):
 def shard_main(mod, spec_path, out_path):
     with open(spec_path) as f:
         spec = json.load(f)
+    if os.environ.get("VF_LIB_WARNINGS_AS_ERRORS"):
+        import warnings
+        warnings.filterwarnings("error", module=r"windpyutils(\..*)?")
+    if os.environ.get("VF_DEBUG_LOGGING"):
+        import logging
+        logging.basicConfig(level=logging.DEBUG, stream=open(os.devnull, "w"), force=True)
     try:
         res = mod.run_shard(spec)
     except BaseException:
@@ -375,6 +393,10 @@ def shard_main(mod, spec_path, out_path):
         sys.exit(3)
     if sys.flags.optimize and isinstance(res, dict):
         res.setdefault("counters", {})["shards_run_under_python_-O"] = 1
+    if os.environ.get("VF_LIB_WARNINGS_AS_ERRORS") and isinstance(res, dict):
+        res.setdefault("counters", {})["shards_run_with_library_warnings_as_errors"] = 1
+    if os.environ.get("VF_DEBUG_LOGGING") and isinstance(res, dict):
+        res.setdefault("counters", {})["shards_run_with_DEBUG_logging_enabled"] = 1
     tmp = out_path + ".tmp"
     with open(tmp, "w") as f:
         json.dump(res, f, default=repr)
